@@ -92,6 +92,13 @@ class Ctx:
     # -- output ------------------------------------------------------------------
     def finish(self, explanation, rule_text, level_note=""):
         known, fixed = load_known()
+        selftest = bool(os.environ.get("VERIF_NO_EVIDENCE"))
+        if selftest:
+            # rule self-test on a scratch copy: print machine-readable keys, never touch reports/evidence of /repo
+            for v in self.violations:
+                kind = "known" if known.get((self.prop, v["key"])) is not None else "new"
+                print("SELFTEST-KEY %s %s %s" % (self.prop, v["key"], kind))
+            return 0
         rep_dir = os.path.join(VERIF, "reports", self.prop)
         os.makedirs(rep_dir, exist_ok=True)
         # remove stale reports of earlier runs
